@@ -46,6 +46,11 @@ def items(tier):
                         n=n, mclass=mclass, sparse=sparse, lda=lda, solver="oracle")
     add("linsolve", "orc-n2-2rhs", n=2, mclass="general", nrhs=2, lda=False, solver="oracle")
     add("linsolve", "orc-n2-2rhs-sp", n=2, mclass="general", nrhs=2, sparse=True, lda=False, solver="oracle")
+    # one load case handed over as an (n, 1) block, through the default wrapped solver and without it; a one-dof system
+    add("linsolve", "orc-n2-1rhs-block-lda", n=2, mclass="general", nrhs=1, lda=True, solver="oracle")
+    add("linsolve", "orc-n2-1rhs-block", n=2, mclass="general", nrhs=1, lda=False, solver="oracle")
+    add("linsolve", "orc-n1-lda", n=1, mclass="general", lda=True, solver="oracle")
+    add("sysofeq", "n3-1rhs-block", n=3, free=[0, 2], nrhs=1, mclass="general", sparse=True)
     if not q:
         add("linsolve", "orc-n2-2rhs-lda", n=2, mclass="general", nrhs=2, lda=True, solver="oracle")
     add("linsolve", "orc-n2-cplx", n=2, mclass="general", cplx=True, lda=False, solver="oracle")
